@@ -69,6 +69,27 @@ theorem to_future_cancel_is_final {α} (s : ToFuture.State α) (hp : s.fut = .pe
     simp [ToFuture.step, hp]
   rw [h, ToFuture.frozen _ rfl rfl]
 
+/-- **to_future_done_disposes_source.** In every history, as soon as the future is done (result, error or
+cancellation) the subscription to the source has been disposed. -/
+theorem to_future_done_disposes_source {α} (evs : List (ToFuture.Event α)) :
+    (ToFuture.run evs).fut.isDone = true → (ToFuture.run evs).stopped = true := by
+  suffices h : ∀ (s : ToFuture.State α), (s.fut.isDone = true → s.stopped = true) →
+      ((evs.foldl ToFuture.step s).fut.isDone = true → (evs.foldl ToFuture.step s).stopped = true) from
+    h {} (by intro h; cases h)
+  induction evs with
+  | nil => intro s hs; exact hs
+  | cons e r ih =>
+    intro s hs
+    simp only [List.foldl_cons]
+    apply ih
+    obtain ⟨hv, last, fut, stopped⟩ := s
+    cases e with
+    | src n =>
+      cases stopped with
+      | true => simp [ToFuture.step]
+      | false => cases n <;> simp_all [ToFuture.step]
+    | cancel => cases fut <;> simp_all [ToFuture.step, Fut.isDone]
+
 /-- **run_eq_to_future.** `run()` returns / raises exactly what the future of `to_future` holds, and
 blocks exactly when that future stays pending. -/
 theorem run_eq_to_future {α} (xs : List (Notif α)) :
